@@ -735,8 +735,10 @@ def fam_eq_stable(cfg, rng):
     h = H(cfg, rng, 'eq_stable')
     kind = rng.choice(['L', 'L', 'V']) if cfg.n <= 64 else 'L'
     n = cfg.n if kind == 'V' else rng.randint(0, h.maxlen(64))
+    if kind == 'L' and rng.random() < 0.35:
+        n = min(h.maxlen(64), (cfg.pf or 1) * rng.choice([1, 2, 4, 8, 16]))     # ends exactly on a subtree boundary
     vs = h.vals(n, rng.choice(['blocks', 'zero_tail', 'zeros', 'same', 'mixed', 'blocks']))
-    if kind == 'L' and vs and rng.random() < 0.4:
+    if kind == 'L' and vs and rng.random() < 0.3:
         # X 0..0 X': an earlier full block, zeros, then a cut-off repetition of the block (hashes like its padded form)
         blk = [h.val() for _ in range(rng.choice([1, 2, 4, max(1, cfg.pf or 1)]))]
         z = [h.pool[0]] * rng.choice([len(blk), 3 * len(blk), 7 * len(blk), len(blk) * 2 - 1])
@@ -750,15 +752,25 @@ def fam_eq_stable(cfg, rng):
     if rng.random() < 0.3 and h.regs[1]['v']:
         h.write(1)
         h.apply(1)
-    if rng.random() < 0.5:
+    c2 = rng.random()
+    if c2 < 0.4:
         h.fresh_like(0, 2)
+    elif c2 < 0.75 and kind == 'L' and len(h.regs[0]['v']) < cfg.n:
+        # an independent, longer relative: the contents of h0 (cut at a subtree boundary now and then) plus a tail
+        base = list(h.regs[0]['v'])
+        tail = [h.val() for _ in range(rng.randint(1, min(6, cfg.n - len(base))))]
+        h.new_list(2, base + tail)
+        if 2 in h.regs and rng.random() < 0.5:
+            h.hash(2)
     for _ in range(rng.randint(1, 3)):
         h.emit('eq h0 h1')
         if 2 in h.regs:
             h.emit('eq h2 h0')
         c = rng.random()
         t = rng.choice([0, 0, 1])
-        if c < 0.35:
+        if 2 in h.regs and len(h.regs[2]['v']) != len(h.regs[0]['v']) and rng.random() < 0.5:
+            h.rebase_on(0, 2)
+        elif c < 0.35:
             h.intra(t)
         elif c < 0.5:
             h.hash(t)
@@ -767,7 +779,7 @@ def fam_eq_stable(cfg, rng):
         elif c < 0.8:
             h.apply(t)
         elif c < 0.9 and 2 in h.regs:
-            h.rebase_on(t, 2)
+            h.rebase_on(t if len(h.regs[2]['v']) == len(h.regs[t]['v']) else 0, 2)
         else:
             h.clone(t, 3)
             if kind == 'L':
